@@ -28,7 +28,9 @@ TEXT = {
     'C01': dict(technique=WL,
         text='c01_pess / c01_opt: in every reachable state (any number of requests, any interleaving, arbitrary pre-load values, spurious CAS failures) '
              'no two live grants conflict; c01_word_counts_*: the word is the exact count of live grants. c01_mcs: the same for every reachable state of the step-faithful MCS model '
-             '(protocol invariant over queue groups, word meanings and node ownership; WordSpecs at regenerated constants by bv_decide).',
+             '(protocol invariant over queue groups, word meanings and node ownership; WordSpecs at regenerated constants by bv_decide). '
+             'Guard level (PessimisticLock / OptimisticLock): c01_client_guards_compatible_pess/_opt - in every state reachable by any schedule of any well-formed client program, '
+             'two guards that own grants on the same lock are of compatible classes (guard algebra of C07 + reachable_locks: every lock object of a reachable client state is a reachable state of the core model).',
         note=TRUST),
     'C02': dict(technique=WL,
         text='c02_blocked_*: an agent whose acquisition/upgrade step cannot succeed coexists with a live conflicting holder; c02_solo_acquire; c02_quiescent_free_*: no holder => word free; c02_mcs_*: on MCSLock every failing wait condition has an unfinished request ahead in the queue as witness and the front of the queue passes. '
